@@ -195,4 +195,107 @@ Section More.
     - destruct (run_sim w c Hc) as (m1 & H1). destruct (IH (run F VO w c)) as (m2 & H2).
       exists (m1 ++ m2). intros w2 acc g0 Hs. simpl. rewrite app_assoc. apply H2. apply H1. exact Hs.
   Qed.
+
+  (* ---------- stream accounting: the device streams advance by exactly the random operators logged ---------- *)
+  Hypothesis Hsh_len : forall o shs rs, f_shape F o shs = Some rs -> length rs = f_retn F o.
+  Hypothesis Hinner_argn : forall o p, f_inner F o = Some p -> f_argn F o = ArgExact 0.
+  Local Open Scope N_scope.
+
+  Definition gdr (d : nat) (g : gstate) : N := draws F (g_ops g) d (g_log g).
+  Fixpoint tot (d : nat) (gs : list gstate) : N := match gs with [] => 0 | g :: r => gdr d g + tot d r end.
+  Definition cdraw1 (d : nat) (c : cmd) : N := match c with CDraw d' n => if Nat.eqb d' d then n else 0 | _ => 0 end.
+  Fixpoint cdraws (d : nat) (cs : list cmd) : N := match cs with [] => 0 | c :: r => cdraw1 d c + cdraws d r end.
+
+  Lemma draws_same (ops ops' : ops_t) d l :
+    (forall k, In k l -> exists oi oi', nth_error ops k = Some oi /\ nth_error ops' k = Some oi' /\ o_op oi' = o_op oi) ->
+    draws F ops' d l = draws F ops d l.
+  Proof.
+    induction l as [|k l IH]; intro H; simpl; auto. rewrite IH by (intros j Hj; apply H; right; exact Hj). f_equal.
+    destruct (H k (or_introl eq_refl)) as (oi & oi' & E & E' & Eo). unfold draw_of. rewrite E, E', Eo. reflexivity.
+  Qed.
+
+  (* one call: the log grows by [new], the stream of every device by the draws of [new] *)
+  Definition stream_step (g : gstate) (e : env) (g' : gstate) (e' : env) : Prop :=
+    exists new, g_log g' = g_log g ++ new /\ (forall k, In k new -> nth_error (g_ops g) k <> None) /\
+                forall d, e_pos e' d = e_pos e d + draws F (g_ops g) d new.
+
+  Lemma frel_stream g e g1 e1 R : frel F g e g1 e1 R -> stream_step g e g1 e1.
+  Proof.
+    intros (_ & _ & _ & _ & _ & new & L & _ & In1 & _ & D). exists new. split; [exact L|]. split; [|exact D].
+    intros k Hk. destruct (In1 k Hk) as (_ & _ & (oi & E & _) & _). congruence.
+  Qed.
+
+  Lemma gdr_step (g g' : gstate) e e' d : gok F g -> gext g g' -> stream_step g e g' e' ->
+    e_pos e' d + gdr d g = e_pos e d + gdr d g'.
+  Proof.
+    intros (_ & _ & _ & Hlog) (_ & _ & Hop) (new & L & Hex & D). unfold gdr. rewrite L, draws_app, D.
+    assert (E1 : draws F (g_ops g') d (g_log g) = draws F (g_ops g) d (g_log g)).
+    { apply draws_same. intros k Hk. destruct (Hlog k Hk) as (oi & E & _). destruct (Hop k oi E) as (oi' & E' & Eo). eauto. }
+    assert (E2 : draws F (g_ops g') d new = draws F (g_ops g) d new).
+    { apply draws_same. intros k Hk. destruct (nth_error (g_ops g) k) as [oi|] eqn:E; [|exfalso; apply (Hex k Hk); exact E].
+      destruct (Hop k oi E) as (oi' & E' & Eo). eauto. }
+    rewrite E1, E2. lia.
+  Qed.
+
+  Lemma tot_set_nth d gs gi g g' : nth_error gs gi = Some g -> tot d (set_nth gs gi g') + gdr d g = tot d gs + gdr d g'.
+  Proof.
+    revert gi. induction gs as [|x gs IH]; intros [|gi] H; simpl in *; try discriminate.
+    - injection H as ->. lia.
+    - specialize (IH gi H). lia.
+  Qed.
+  Lemma tot_app d a b : tot d (a ++ b) = tot d a + tot d b.
+  Proof. induction a as [|x a IH]; simpl; [reflexivity|]. rewrite IH. lia. Qed.
+
+  Lemma run_stream (w : world) c d : winv F w ->
+    e_pos (w_env (run F VO w c)) d + tot d (w_graphs w) = e_pos (w_env w) d + tot d (w_graphs (run F VO w c)) + cdraw1 d c.
+  Proof.
+    intro Hw. unfold run. destruct (run_cmd F VO w c) as [w'| |] eqn:Er.
+    2,3: (assert (cdraw1 d c = 0) by (destruct c; simpl in *; try reflexivity; discriminate); lia).
+    assert (Hg : forall gi g, nth_error (w_graphs w) gi = Some g -> gok F g).
+    { intros gi g E. unfold winv in Hw. rewrite Forall_forall in Hw. apply Hw. eapply nth_error_In; eauto. }
+    destruct c as [|gi o args|gi a|gi a|ps upd|ps|p v|d0 n]; simpl in Er; cbn [cdraw1].
+    - injection Er as <-. cbn [w_graphs w_env]. rewrite tot_app. simpl. unfold gdr. simpl. lia.
+    - destruct (nth_error (w_graphs w) gi) as [g|] eqn:Eg; [|discriminate].
+      destruct (add_op F gi g o args) as [[g' k]| |] eqn:Ea; try discriminate. injection Er as <-.
+      cbn [put_graph w_graphs w_env]. pose proof (tot_set_nth d _ _ _ g' Eg) as Ht.
+      destruct (add_ok F Hsh_len Hinner_argn _ _ _ _ _ _ (Hg _ _ Eg) Ea) as (_ & Hx).
+      assert (Hs : stream_step g (w_env w) g' (w_env w)).
+      { destruct (add_op_spec F _ _ _ _ _ _ Ea) as (_ & El & _). exists []. rewrite app_nil_r. split; [exact El|].
+        split; [intros k0 []|]. intro d1. simpl. lia. }
+      pose proof (gdr_step _ _ _ _ d (Hg _ _ Eg) Hx Hs). lia.
+    - destruct (nth_error (w_graphs w) gi) as [g|] eqn:Eg; [|discriminate].
+      destruct (forward F g (w_env w) a) as [[[v g'] e']|] eqn:Ea; try discriminate. injection Er as <-.
+      cbn [put_graph w_graphs w_env]. pose proof (tot_set_nth d _ _ _ g' Eg) as Ht.
+      destruct (forward_ok F Hfw_len _ _ _ _ _ _ (Hg _ _ Eg) Ea) as (_ & Hx & Hex).
+      assert (Hs : stream_step g (w_env w) g' e').
+      { destruct Hex as (_ & _ & _ & _ & _ & _ & _ & new & L & _ & Hiff & _ & _ & _ & D). exists new. split; [exact L|]. split; [|exact D].
+        intros k Hk. apply Hiff in Hk. destruct Hk as (_ & _ & (oi & E & _)). congruence. }
+      pose proof (gdr_step _ _ _ _ d (Hg _ _ Eg) Hx Hs). lia.
+    - destruct (nth_error (w_graphs w) gi) as [g|] eqn:Eg; [|discriminate].
+      destruct (backward F VO g (w_env w) a) as [[g' e']|] eqn:Ea; try discriminate. injection Er as <-.
+      cbn [put_graph w_graphs w_env]. pose proof (tot_set_nth d _ _ _ g' Eg) as Ht.
+      pose proof (Hg _ _ Eg) as Hgok. destruct (backward_ok F VO Hfw_len _ _ _ _ _ Hgok Ea) as (_ & Hx & _).
+      destruct Hgok as (Hinv & Hcl & _).
+      destruct (backward_spec F VO Hfw_len _ _ _ _ _ Hinv Hcl Ea) as (g1 & e1 & R & _ & _ & Hl & _ & _ & _ & Hpos & _).
+      assert (Hs : stream_step g (w_env w) g' e').
+      { destruct (frel_stream _ _ _ _ _ R) as (new & L & Hex & D). exists new. split; [congruence|]. split; [exact Hex|].
+        intro d1. rewrite Hpos. apply D. }
+      pose proof (gdr_step _ _ _ _ d (Hg _ _ Eg) Hx Hs). lia.
+    - injection Er as <-. cbn [w_graphs w_env param_update e_pos]. lia.
+    - injection Er as <-. cbn [w_graphs w_env reset_gradients e_pos]. lia.
+    - injection Er as <-. cbn [w_graphs w_env set_pgrad e_pos]. lia.
+    - injection Er as <-. cbn [w_graphs w_env bump e_pos]. rewrite (Nat.eqb_sym d0 d). destruct (Nat.eqb_spec d d0) as [->|]; lia.
+  Qed.
+
+  (* For EVERY history: position of device d = initial position + draws of all random operators
+     in the forward logs (i.e. evaluated ones, each once) + the direct draws of the history.
+     Unevaluated random nodes contribute nothing. *)
+  Theorem stream_account cs : forall (w : world) d, winv F w ->
+    e_pos (w_env (run_all F VO w cs)) d + tot d (w_graphs w) =
+    e_pos (w_env w) d + tot d (w_graphs (run_all F VO w cs)) + cdraws d cs.
+  Proof.
+    induction cs as [|c cs IH]; intros w d Hw; simpl; [lia|].
+    pose proof (run_stream w c d Hw) as H1.
+    pose proof (IH (run F VO w c) d (proj1 (run_ok F VO Hfw_len Hsh_len Hinner_argn w c Hw))) as H2. lia.
+  Qed.
 End More.
